@@ -1133,4 +1133,147 @@ theorem decPrimsU_frame : decPrimsU.Frame :=
 theorem decPrimsC_frame : decPrimsC.Frame :=
   Prims.Good.to_frame (fun x => decPrimsC_trunc.frame_of_trunc x) (fun _ _ => rfl) (fun _ _ _ => rfl)
 
+
+/-! ### the encoder's primitives (uncompressed): writer-side frame property -/
+
+theorem good_write (upd : St → St) (hupd : ∀ (s : St) (b : Bits), upd (s.setBits b) = (upd s).setBits b)
+    (field : CM Bits) : Good writerShape (fun s => (upd s).write field) := by
+  intro s s' e
+  cases field with
+  | error err => cases e
+  | ok f =>
+    simp only [St.write] at e
+    cases e
+    have hb : (upd s).bits = s.bits := by
+      have := congrArg St.bits (hupd s s.bits)
+      simpa using this
+    refine ⟨f.reverse, by simp only [List.reverseAux_eq, hb], fun b => ?_⟩
+    simp only [hupd, St.write, St.setBits_bits, List.reverseAux_eq, lift_ok]
+    rfl
+
+theorem nextVal_setBits (s : St) (b : Bits) :
+    nextVal (s.setBits b) = match nextVal s with
+      | .error e => .error e
+      | .ok (v, s1) => .ok (v, s1.setBits b) := by
+  simp only [nextVal, curVals, St.setBits_vals, St.setBits_idx, bind, Except.bind, pure, Except.pure]
+  cases nthVal (s.vals.headD []) s.idx <;> rfl
+
+/-- take the next value, update the registers with it, write the field computed from it -/
+theorem good_nextVal_write (dd : DDesc) (upd : Val → St → St)
+    (hupd : ∀ v (s : St) (b : Bits), upd v (s.setBits b) = (upd v s).setBits b) (field : Val → CM Bits) :
+    Good writerShape (fun s => match nextVal (s.pushDesc dd) with
+      | .error e => .error e
+      | .ok (v, s1) => (upd v s1).write (field v)) := by
+  refine Good.local fun s => ?_
+  cases hv : nextVal (s.pushDesc dd) with
+  | error err =>
+    refine ⟨_, Good.error err, fun b => ?_⟩
+    have : (s.setBits b).pushDesc dd = (s.pushDesc dd).setBits b := rfl
+    simp only [this, nextVal_setBits, hv]
+  | ok p =>
+    obtain ⟨v, s1⟩ := p
+    refine ⟨kl (fun s => match nextVal (s.pushDesc dd) with
+        | .error e => .error e
+        | .ok (_, s1) => .ok s1) (fun s1 => (upd v s1).write (field v)),
+      Good.kl (Good.obl fun s b => ?_) (good_write (upd v) (hupd v) (field v)), fun b => ?_⟩
+    · have : (s.setBits b).pushDesc dd = (s.pushDesc dd).setBits b := rfl
+      simp only [this, nextVal_setBits]
+      cases nextVal (s.pushDesc dd) <;> rfl
+    · have : (s.setBits b).pushDesc dd = (s.pushDesc dd).setBits b := rfl
+      simp only [this, nextVal_setBits, hv, kl]
+
+def numField (nbits scale ref : Int) (v : Val) : CM Bits :=
+  match natWidth nbits with
+  | .error e => .error e
+  | .ok n =>
+    match v with
+    | .missing => (do fieldUInt (← missingPattern n) n)
+    | v => (do let q ← quantise v scale; fieldUInt (q - ref) n)
+
+theorem write_error (s : St) (e : Err) : s.write (.error e) = .error e := rfl
+
+theorem good_encNumericU (dd : DDesc) (nbits scale ref : Int) : Good writerShape (encNumericU dd nbits scale ref) := by
+  refine Good.congr (fun s => ?_) (good_nextVal_write dd (fun _ s => s) (fun _ _ _ => rfl) (numField nbits scale ref))
+  simp only [encNumericU, numField, bind, Except.bind]
+  cases nextVal (s.pushDesc dd) with
+  | error e => rfl
+  | ok p =>
+    obtain ⟨v, s1⟩ := p
+    simp only
+    cases natWidth nbits with
+    | error e => rfl
+    | ok n =>
+      simp only
+      cases v with
+      | missing => rfl
+      | int i => simp only; cases quantise (.int i) scale <;> rfl
+      | num m k => simp only; cases quantise (.num m k) scale <;> rfl
+      | bytes bb => simp only; cases quantise (.bytes bb) scale <;> rfl
+
+theorem good_encStringU (dd : DDesc) (nbytes : Nat) : Good writerShape (encStringU dd nbytes) := by
+  refine Good.congr (fun s => ?_) (good_nextVal_write dd (fun _ s => s) (fun _ _ _ => rfl)
+    (fun v => match v with
+      | .missing => fieldBytes (List.replicate nbytes 0xFF) nbytes
+      | .bytes b => fieldBytes b nbytes
+      | _ => .error .other))
+  simp only [encStringU, bind, Except.bind]
+  cases nextVal (s.pushDesc dd) with
+  | error e => rfl
+  | ok p =>
+    obtain ⟨v, s1⟩ := p
+    cases v <;> rfl
+
+theorem good_encCodeflagU (dd : DDesc) (nbits : Nat) : Good writerShape (encCodeflagU dd nbits) := by
+  refine Good.congr (fun s => ?_) (good_nextVal_write dd (fun _ s => s) (fun _ _ _ => rfl)
+    (fun v => match v with
+      | .missing => (do fieldUInt (← missingPattern nbits) nbits)
+      | .int i => fieldUInt i nbits
+      | _ => .error .other))
+  simp only [encCodeflagU, bind, Except.bind]
+  cases nextVal (s.pushDesc dd) with
+  | error e => rfl
+  | ok p =>
+    obtain ⟨v, s1⟩ := p
+    cases v <;> rfl
+
+theorem good_encNewRefvalU (e : Elem) (nbits : Nat) : Good writerShape (encNewRefvalU e nbits) := by
+  refine Good.congr (fun s => ?_) (good_nextVal_write (.plain e)
+    (fun v s => match v with | .int i => setNewRefval s e.id i | _ => s)
+    (fun v _ _ => by cases v <;> rfl)
+    (fun v => match v with
+      | .int i => fieldInt i nbits
+      | _ => .error .other))
+  simp only [encNewRefvalU, bind, Except.bind]
+  cases nextVal (s.pushDesc (.plain e)) with
+  | error e => rfl
+  | ok p =>
+    obtain ⟨v, s1⟩ := p
+    cases v <;> rfl
+
+theorem obl_encConstantU (dd : DDesc) (c : Int) : Obl (encConstantU dd c) := by
+  intro s b
+  simp only [encConstantU, curVals, St.setBits_vals, St.setBits_idx, bind, Except.bind, pure, Except.pure]
+  cases nthVal (s.vals.headD []) s.idx with
+  | error e => rfl
+  | ok v =>
+    simp only
+    by_cases h : v = .int c
+    · simp only [h, ne_eq, not_true_eq_false, if_false]; rfl
+    · simp only [ne_eq, h, not_false_eq_true, if_true]
+
+theorem encPrimsU_writer : encPrimsU.Good writerShape where
+  numeric := good_encNumericU
+  string := good_encStringU
+  codeflag := good_encCodeflagU
+  newRefval := good_encNewRefvalU
+  constant dd c := Good.obl (obl_encConstantU dd c)
+  factorValue := GoodV.obl (fun _ _ => rfl)
+  lastValues _ := GoodV.obl (fun _ _ => rfl)
+
+/-- the writer-side walk lemma: the encoder's walk only conses a block `w` onto what was written,
+    and `w` does not depend on what was written before -/
+theorem walkList_writer (t : List Desc) (s s' : St) (h : walkList encPrimsU t s = .ok s') :
+    ∃ w, s'.bits = w ++ s.bits ∧ ∀ b, walkList encPrimsU t (s.setBits b) = .ok (s'.setBits (w ++ b)) :=
+  good_walkList encPrimsU_writer t s s' h
+
 end Bufr
